@@ -1,6 +1,6 @@
 (* C15 driver: one case per line (tokens separated by blanks, "-" = empty).
    RUN fixes feat remote l6 l4 dns resolv nshosts tons incl excl autonets user group env
-       fixes   5 chars 0/1: F1 F2 F14 F15 F21 applied
+       fixes   6 chars 0/1: F1 F2 F14 F15 F21 F131 applied
        feat    7 chars 0/1: loopback ipv4 ipv6 udp dns user group
        remote/dns/autonets  0/1
        l6,l4   N | A | X:<hexip>:<port>
@@ -9,6 +9,7 @@
        incl,excl        ;-separated  <4|6>,<hexip>,<width>,<fport>,<lport>
        user,group       - | E<id> | M
        env     ;-separated  <t|u><4|6>:<lo>:<hi>      (busy port ranges, every address)
+                            r<t|u><4|6>:<errno>:<hexip|*>:<lo>:<hi>   (bind refused with that errno; first match decides)
      -> FATAL <class> | OSERR <errno> | CRASH <class> | PLAN <fields>  [ v6active=<0/1> hasv6=<0/1> ]
    LISTEN <disable_ipv6 0/1> <- | ;-separated <4|6>,<hexip>,<port>>   -> <l6> <l4>
    METHODS               -> documented names, each with :1/:0 (accepted by method_choices)
@@ -52,7 +53,15 @@ let feat_str f =
   let c x = if x then "1" else "0" in
   c f.f_loopback ^ c f.f_ipv4 ^ c f.f_ipv6 ^ c f.f_udp ^ c f.f_dns ^ c f.f_user ^ c f.f_group
 let parse_fixes s =
-  { fx_F1 = b s.[0]; fx_F2 = b s.[1]; fx_F14 = b s.[2]; fx_F15 = b s.[3]; fx_F21 = b s.[4] }
+  { fx_F1 = b s.[0]; fx_F2 = b s.[1]; fx_F14 = b s.[2]; fx_F15 = b s.[3]; fx_F21 = b s.[4]; fx_F131 = b s.[5] }
+let is_refusal s = String.length s > 0 && s.[0] = 'r'
+let parse_refusal s =
+  match String.split_on_char ':' s with
+  | [pf; errno; ip; lo; hi] when String.length pf = 3 ->
+      ((((((match pf.[1] with 't' -> TCP | 'u' -> UDP | _ -> failwith "bad proto"),
+           fam_of (String.make 1 pf.[2])),
+          (if ip = "*" then None else Some (bytes_of_hex ip))), num lo), num hi), num errno)
+  | _ -> failwith ("bad refusal " ^ s)
 
 let ni n = string_of_int (int_of_n n)
 let sn_str s = Printf.sprintf "%s,%s,%s,%s,%s" (fam_str s.sn_fam) (hex_of_bytes s.sn_ip) (ni s.sn_width) (ni s.sn_fport) (ni s.sn_lport)
@@ -67,6 +76,7 @@ let fatal_str = function
   | FPortsBusy -> "ports_busy" | FDnsPortsBusy -> "dns_ports_busy"
   | FV6SubnetsNoListen -> "v6_subnets_no_listen" | FV6NsNoListen -> "v6_ns_no_listen"
   | FV4SubnetsNoListen -> "v4_subnets_no_listen" | FV4NsNoListen -> "v4_ns_no_listen"
+  | FV6Unavailable -> "v6_unavailable" | FBindRefused -> "bind_refused" | FDnsBindRefused -> "dns_bind_refused"
 let exn_str = function AssertionError -> "AssertionError" | UnboundLocalError -> "UnboundLocalError" | TypeError -> "TypeError"
 let bs x = if x then "1" else "0"
 let plan_str p =
@@ -85,8 +95,9 @@ let handle = function
                 c_ns_hosts = List.map parse_ns (items nshosts); c_to_ns = parse_tons tons;
                 c_includes = List.map parse_sn (items incl); c_excludes = List.map parse_sn (items excl);
                 c_auto_nets = b autonets.[0]; c_user = parse_id user; c_group = parse_id group } in
-      let e = env_of_ranges (List.map parse_range (items envs)) in
-      (match startup_gen (parse_fixes fx) c e with
+      let e = env_of_ranges (List.map parse_range (List.filter (fun x -> not (is_refusal x)) (items envs))) in
+      let rf = renv_of_list (List.map parse_refusal (List.filter is_refusal (items envs))) in
+      (match startup_gen (parse_fixes fx) c e rf with
        | Fatal m -> "FATAL " ^ fatal_str m
        | OsError n -> "OSERR " ^ ni n
        | Crash x -> "CRASH " ^ exn_str x
